@@ -223,6 +223,10 @@ FORCED = [
     ([['lit', 'f/'], ['wild', 'f', 'float', None]], ['f/0.00001', 'f/12345678901234567890000', 'f/-0.0000001', 'f/1.5', 'f/-0', 'f/007.50', 'f/123456789.123456789',
                                                                  'f/0.0000123456789', 'f/123456789012345678', 'f/-0.00000987654321']),
     ([['lit', 'item/'], ['wild', 'id', 'int', None], ['lit', '/'], ['wild', 'slug', None, None]], ['item/12/intro', 'item/-7/x']),
+    # a look-ahead that reaches beyond the literal after the wildcard, into the next wildcard's text
+    ([['lit', 'issue/'], ['wild', 'num', 're', r'\d+(?=/[a-z])'], ['lit', '/'], ['wild', 'slug', None, None]], ['issue/12/fix-typo', 'issue/7/x']),
+    ([['lit', 'v/'], ['wild', 'a', 're', r'[a-z]+(?=-\d\d)'], ['lit', '-'], ['wild', 'n', 'int', None], ['lit', '/'], ['wild', 'rest', 'path', None]], ['v/abc-12/p/q', 'v/x-007/z']),
+    ([['wild', 'w', 're', r'\w+?(?=\.\w+\.gz)'], ['lit', '.'], ['wild', 'ext', None, None], ['lit', '.gz']], ['data.tar.gz', 'a.b.gz']),
     ([['lit', 'plot/'], ['wild', 'x', 'float', None], ['lit', '/'], ['wild', 'n', 'int', None], ['lit', '/'], ['wild', 't', None, None]], ['plot/2.5/3/a', 'plot/0.000012345678/-1/b']),
     ([['lit', 'p/'], ['wild', 'p', 'path', None], ['lit', '/end']], ['p/a/b/end', 'p/x/end', 'p/a/end/b/end', 'p//end']),
     ([['lit', 'p/'], ['wild', 'p', 'path', None]], ['p/a/b', 'p/é/1', 'p/a//b/']),
